@@ -190,6 +190,10 @@ public:
 
   static constexpr bool sends_done = false;
 
+  // Whether the value (set_done) can actually be produced; used by
+  // dematerialize() to compute its own sends_done.
+  static constexpr bool materializes_done = sender_traits<Source>::sends_done;
+
   static constexpr blocking_kind blocking = sender_traits<Source>::blocking;
 
   static constexpr bool is_always_scheduler_affine =
